@@ -484,7 +484,22 @@ func genSynthHunk(t *rapid.T, merge bool) HunkSpec {
 			return []string{val.JSON(payloadValue(t)), ""}
 		}
 	}
-	switch gen.Int(t, "tail", 0, 4) {
+	switch gen.Int(t, "tail", 0, 5) {
+	case 5: // keyed member, then a key, then a list hunk with context (mixed path kinds)
+		id := val.JSON(map[string]val.V{"id": gen.Pick(t, "idv", []val.V{1.0, "x"})})
+		if gen.Chance(t, "keyedNested", 30) {
+			h.Path = path(id, `"xs"`, id, `"ys"`, fmt.Sprint(gen.Int(t, "idx", 0, 3)))
+		} else {
+			h.Path = path(id, `"xs"`, fmt.Sprint(gen.Int(t, "idx", 0, 3)))
+		}
+		h.Before = ctx("before", true)
+		h.After = ctx("after", false)
+		h.Remove = vals("listRemove", 0, 2)
+		lo := 0
+		if len(h.Remove) == 0 {
+			lo = 1
+		}
+		h.Add = vals("listAdd", lo, 2)
 	case 0: // leaf
 		h.Path = path()
 		h.Remove = vals("leafRemove", 0, 1)
